@@ -6,6 +6,7 @@ import (
 	"errors"
 	"fmt"
 	"hash/fnv"
+	"io"
 	"net"
 	"runtime"
 	"strings"
@@ -205,6 +206,22 @@ func layoutPart(c *run.Ctx) {
 	}
 	for i := 0; i < g; i++ {
 		<-done
+	}
+	if w.Store.AliasLoad {
+		// two connection losses with transfers pending: the records get loaded and resent twice
+		w.Mu.Lock()
+		ep.F.PHold = 1
+		w.Mu.Unlock()
+		d.Publish(1, false, 10)
+		d.Publish(2, false, 10)
+		for k := 0; k < 2; k++ {
+			w.WaitIdle(sim.StepTimeout)
+			n := w.PointCount("connect.resent")
+			if cn := w.CurConn(); cn != nil {
+				cn.EndInbound(-1, io.EOF)
+			}
+			w.WaitUntil(sim.StepTimeout, func() bool { return w.PointCountLocked("connect.resent") > n })
+		}
 	}
 	ep.F.Heal(w)
 	w.Broker.ReleaseHeld()
